@@ -1,0 +1,51 @@
+//go:build verif
+
+// Contracts for package auth (dashboard sessions and credentials), read by the
+// verification-condition generator in /verif (govc).  Comment-only.
+
+package auth
+
+// A session (identified by the content identity k of its id string) is live at
+// time t while it is in the store and its expiry lies after t.
+//@ spec func specLiveId(k int, t int) bool = in(sessionStore.ma, k) && sessionStore.ma[k] != nil && sessionStore.ma[k].ExpiresAt > t
+//@ spec func specStoreWF() bool = forall k key :: in(sessionStore.ma, k) ==> sessionStore.ma[k] != nil
+
+//@ props C20 C16
+//@ func GetSession
+//@   nopanic
+//@   requires specStoreWF()
+//@   ensures specStoreWF()
+//@   ensures result1 <==> result0 != nil
+//@   ensures [C20] result1 ==> old(specLiveId(sid(sid), now))
+//@   ensures [C20] result1 ==> result0 == old(sessionStore.ma[sid]) && result0.ExpiresAt > now
+//@   ensures [C20] result1 ==> in(sessionStore.ma, sid) && sessionStore.ma[sid] == result0
+
+//@ props C20 C16
+//@ func CreateSession
+//@   nopanic
+//@   requires specStoreWF()
+//@   ensures specStoreWF()
+//@   ensures result != nil && result.UserID == userId && result.ExpiresAt > now
+//@   ensures in(sessionStore.ma, result.ID) && sessionStore.ma[result.ID] == result
+
+//@ props C20 C16
+//@ func Session.Destroy
+//@   nopanic
+//@   requires specStoreWF()
+//@   ensures specStoreWF()
+//@   ensures [C20] !in(sessionStore.ma, s.ID)
+
+// The session handed to a request is the live session named by its cookie.
+//@ props C20 C16
+//@ func SessionFromRequest
+//@   nopanic
+//@   requires r != nil && specStoreWF()
+//@   ensures specStoreWF()
+//@   ensures ok <==> sess != nil
+//@   ensures [C20] ok ==> cookie_has(r, "reservoir.sid") && old(specLiveId(cookie_val(r, "reservoir.sid"), now))
+
+// Login: a user is returned only if the stored hash verified the given password.
+//@ props C20 C16
+//@ func Credentials.Authenticate
+//@   nopanic
+//@   ensures [C20] result1 == nil ==> result0 != nil && lastcmp == 1 && lastcmp_a == lastkdf_out && lastkdf_pw == sid(c.Password)
